@@ -19,7 +19,7 @@ SOURCES = [scopesuite.scope_tree, scopesuite.valid_scenario]
 
 def run(tier, seed, drv):
     return msuite.standard_run(PID, 'C04', TAGS, tier, seed, drv, SOURCES, nontrivial=nontrivial, rule=RULE,
-                               n_quick=200, n_thorough=6000)
+                               n_quick=200, n_thorough=6000, optimized=100 if tier == 'quick' else 1000)
 
 
 def replay(data, drv):
